@@ -53,7 +53,7 @@ def nodeOfPriv (c : CurveT) (s : Scheme) (priv : Bytes) (depth index : Nat) (cc 
   else match pubOfPriv c priv with
     | some pub => pure { curve := c, scheme := s, priv := some priv, pub := pub, depth := depth,
                          index := index, chainCode := cc, parentFp := fp.take 4 }
-    | none => throw .thirdParty
+    | none => throw .value        -- libsodium refuses the identity point: plain ValueError from PublicKey()
 
 def nodeOfPub (c : CurveT) (s : Scheme) (pubBytes : Bytes) (depth index : Nat) (cc fp : Bytes) : R Node :=
   match pubFromBytes c pubBytes with
